@@ -200,6 +200,19 @@ func (st *State) check(name, kind string, t Term, desc string, props []string, p
 	if len(o.Props) == 0 && ex.con != nil {
 		o.Props = ex.con.Props
 	}
+	if ap := ex.prog.anchorProps(ex.key); len(ap) > 0 {
+		for _, p := range ap {
+			dup := false
+			for _, q := range o.Props {
+				if q == p {
+					dup = true
+				}
+			}
+			if !dup {
+				o.Props = append(append([]string(nil), o.Props...), p)
+			}
+		}
+	}
 	if ex.con != nil {
 		if pc := ex.prog.PC[ex.con.PkgPath]; pc != nil && pc.KindProps != nil {
 			for _, p := range pc.KindProps[kind] {
